@@ -9,6 +9,7 @@ from .countflow import _quota_pred
 from .values import _forced_arithmetic
 from .loops import _atoms, _assign_transfer
 from ..pathfacts import search
+from ..symret import guarded_returns
 
 INT_QUOTA_RULES = ('scotland', 'mpls')      # the property: floor(ballots/(seats+1))+1 for Scottish, Minneapolis, integer_quota
 
@@ -76,6 +77,15 @@ def _branch_conds(ctx, f, node):
                 out.append((n.test, True))
             elif any(child is b for b in n.orelse):
                 out.append((n.test, False))
+        elif isinstance(n, ast.IfExp):
+            if child is n.body:
+                out.append((n.test, True))
+            elif child is n.orelse:
+                out.append((n.test, False))
+        elif isinstance(n, ast.BoolOp) and isinstance(n.op, ast.And):
+            k = next((i_ for i_, v_ in enumerate(n.values) if v_ is child), 0)
+            for v_ in n.values[:k]:
+                out.append((v_, True))
         child = n
         n = getattr(n, 'parent', None)
     # early returns in the function body before this statement
@@ -94,6 +104,8 @@ def _exactness(ctx, f, conds):
     """'exact' | 'inexact' | 'int' | None from a list of (test, truth)"""
     res = None
     for t, truth in conds:
+        while isinstance(t, ast.UnaryOp) and isinstance(t.op, ast.Not):
+            t, truth = t.operand, not truth
         p = ctx.canon(t, f)
         if p in ('E.V.exact',):
             res = 'exact' if truth else 'inexact'
@@ -133,9 +145,16 @@ def r13_quota(ctx):
         forced = _forced_arithmetic(ctx, ri)
         cq = ri.helper(ctx, 'calcQuota')
         sites = []       # (func, expr node, anchor)
+        summarised = {}
         if cq is not None:
-            for r in [n for n in cq.own_nodes() if isinstance(n, ast.Return) and n.value is not None]:
-                sites.append((cq, r.value, r))
+            gr = guarded_returns(cq.node)
+            if gr is not None and all(e_ is not None for _, e_, _ in gr):
+                for conds_, e_, r in gr:
+                    sites.append((cq, e_, r))
+                    summarised[id(e_)] = conds_
+            else:
+                for r in [n for n in cq.own_nodes() if isinstance(n, ast.Return) and n.value is not None]:
+                    sites.append((cq, r.value, r))
         # inline quota assignments (meek_prf)
         for g in all_funcs_of(f):
             for s in g.own_nodes():
@@ -147,7 +166,7 @@ def r13_quota(ctx):
         for g, expr, anchor in sites:
             nq += 1
             ce = canon_expr(ctx, g, expr)
-            conds = _branch_conds(ctx, g, anchor)
+            conds = summarised[id(expr)] if id(expr) in summarised else _branch_conds(ctx, g, anchor)
             ex = _exactness(ctx, g, conds)
             what = 'the quota of rule %s has the prescribed form' % ri.short
             if ri.short == 'qpq':
@@ -182,9 +201,16 @@ def r13_quota(ctx):
         qp = None
         hq = ri.helper(ctx, 'hasQuota')
         cmps = []
+        hsumm = {}
         if hq is not None:
-            for r in [n for n in hq.own_nodes() if isinstance(n, ast.Return) and isinstance(n.value, ast.Compare)]:
-                cmps.append((hq, r.value, r))
+            gr = guarded_returns(hq.node)
+            if gr is not None and all(isinstance(e_, ast.Compare) for _, e_, _ in gr):
+                for conds_, e_, r in gr:
+                    cmps.append((hq, e_, r))
+                    hsumm[id(e_)] = conds_
+            else:
+                for r in [n for n in hq.own_nodes() if isinstance(n, ast.Return) and isinstance(n.value, ast.Compare)]:
+                    cmps.append((hq, r.value, r))
         for g in all_funcs_of(f):
             if g is hq:
                 continue
@@ -213,7 +239,7 @@ def r13_quota(ctx):
                                   unparse(r.value), '`%s` measures the tally against `%s`, not the quota' % (unparse(r.value), unparse(r_)), nontrivial=False)
         need(cmps, '%s: no quota comparison found' % ri.cls.qualname)
         for g, c, anchor in cmps:
-            conds = _branch_conds(ctx, g, anchor)
+            conds = hsumm[id(c)] if id(c) in hsumm else _branch_conds(ctx, g, anchor)
             ex = _exactness(ctx, g, [(t, tr) for t, tr in conds if unparse(t) != 'self.integer_quota'])
             if ex is None:
                 ex = 'exact' if forced == 'guarded' else ('inexact' if forced in ('fixed', 'integer') else None)
@@ -326,6 +352,13 @@ def _election_step_edges(ctx, f):
         # E1: for c in [c for c in C.hopeful(..) if QUOTA(c)]: c.elect(..)   -> exhausted edge
         if n.kind == 'iter' and isinstance(n.ast.target, ast.Name):
             it = n.ast.iter
+            if isinstance(it, ast.Name):
+                # `winners = [c for c in C.hopeful() if QUOTA(c)]` + `for w in winners:` - the list is evaluated where it is assigned:
+                # read through the local when that single assignment is the statement right before the loop
+                rd = reaching_defs(cfg, it.id, n)
+                if len(rd) == 1 and rd[0] is not cfg.entry and isinstance(rd[0].ast, ast.Assign) and isinstance(rd[0].ast.value, ast.ListComp) \
+                        and [t for t, _l in rd[0].succ if _l != 'exc'] == [n]:
+                    it = rd[0].ast.value
             if isinstance(it, (ast.ListComp, ast.GeneratorExp)) and len(it.generators) == 1 \
                     and is_selector_call(ctx, f, it.generators[0].iter, 'hopeful') and isinstance(it.elt, ast.Name):
                 g = it.generators[0]
